@@ -20,7 +20,13 @@
 //! * sessions with a small consensus `max_block_bytes` (`op_late_fill`: transactions proposed on
 //!   chain first reach the pool late and fill the template, then an uncle candidate / fresh
 //!   proposals arrive) and with a small `max_block_cycles` (`op_cpfp`: child-pays-for-parent
-//!   chain next to independent high-fee-rate transactions); every template is sealed and verified.
+//!   chain next to independent high-fee-rate transactions); every template is sealed and verified;
+//! * `op_rbf_equal`: several pooled transactions paying exactly the same fee (unrelated ones, a
+//!   parent and its child, a diamond) are replaced by one transaction whose fee is aimed at the
+//!   replacement threshold and at distances below it up to one whole replaced fee;
+//! * `op_readd_family`: D is committed, a dep user P and a spender S of D's output are pooled, a
+//!   competing branch without D makes the pool take D back *below* P and S, then the new branch
+//!   commits a double spend of D (D and its whole family must leave the pool).
 
 use ckb_app_config::TxPoolConfig;
 use ckb_types::core::{BlockView, FeeRate, TransactionView};
@@ -376,11 +382,14 @@ fn run_session(rng: &mut Rng, si: u64, n_ops: u64, r: &mut Reports) {
         // random mix below): the histories the random mix alone reaches too rarely
         let directed = match oi {
             2 => Some(0),
+            5 => Some(5),
             9 => Some(1),
             16 => Some(2),
             23 => Some(4),
             30 => Some(3),
+            37 => Some(6),
             44 => Some(1),
+            51 => Some(5),
             58 => Some(0),
             _ => None,
         };
@@ -393,6 +402,8 @@ fn run_session(rng: &mut Rng, si: u64, n_ops: u64, r: &mut Reports) {
                 }
                 2 => s.op_dep_spend(r, false),
                 3 => s.op_dep_spend(r, true),
+                5 => s.op_rbf_equal(r),
+                6 => s.op_readd_family(r),
                 _ => s.op_pool_pressure(r),
             };
             if !ok {
@@ -1327,12 +1338,28 @@ impl Sess {
         let main: HashSet<H> = st.chain.iter().cloned().collect();
         let mut new_causes: Vec<((ProposalShortId, H), &'static str)> = vec![];
         let known_causes = self.dead_cause.clone();
+        // transactions committed in the blocks this tip change detached
+        let detached_now: HashSet<H> = detached.iter().flat_map(|x| rc.get(x).block.transactions().into_iter().skip(1)).map(|t| h(&t.hash())).collect();
+        // pooled (before) families of the ids the chain reported as dropped from the window
+        let dropped_family: HashSet<ProposalShortId> = {
+            let by_pre: HashMap<ProposalShortId, &VerifEntry> = pre.entries.iter().map(|e| (e.id.clone(), e)).collect();
+            let mut fam = HashSet::new();
+            for n in &post.reorgs {
+                for id in &n.detached_proposal_ids {
+                    if by_pre.contains_key(id) {
+                        fam.insert(id.clone());
+                        fam.extend(transitive(&by_pre, id, false));
+                    }
+                }
+            }
+            fam
+        };
         for e in &post.entries {
             for op in e.tx.input_pts_iter() {
                 let k = op_key(&op);
                 let ok = st.cells.contains_key(&k) || pool_hashes.get(&k.0).map(|p| (k.1 as usize) < p.tx.outputs().len()).unwrap_or(false);
                 if !ok {
-                    let mut cause = creator_cause(rc, &st, &k.0, pre);
+                    let mut cause = creator_cause(&st, &k.0, pre, &detached_now, &dropped_family);
                     if cause.is_empty() {
                         cause = known_causes.get(&(e.id.clone(), k.0)).copied().unwrap_or("");
                     } else {
@@ -1345,7 +1372,7 @@ impl Sess {
                 let k = op_key(&dep.out_point());
                 let ok = st.cells.contains_key(&k) || pool_hashes.get(&k.0).map(|p| (k.1 as usize) < p.tx.outputs().len()).unwrap_or(false);
                 if !ok {
-                    let mut cause = creator_cause(rc, &st, &k.0, pre);
+                    let mut cause = creator_cause(&st, &k.0, pre, &detached_now, &dropped_family);
                     if cause.is_empty() {
                         cause = known_causes.get(&(e.id.clone(), k.0)).copied().unwrap_or("");
                     } else {
@@ -1790,6 +1817,181 @@ impl Sess {
             }
         }
         Ok(self.in_proposed_set(txs))
+    }
+
+
+    /// C11 (replacement accounting): the replaced set holds transactions paying *exactly* the
+    /// same fee. Shapes: two unrelated transactions, a parent and its child, two parents and a
+    /// common child. The replacement spends the roots' inputs and pays
+    /// `sum(fees of roots and their descendants) + min_rbf_rate * size - k` for k = 0 (the
+    /// threshold), 1, half a replaced fee, one replaced fee. `judge_submission` decides.
+    fn op_rbf_equal(&mut self, r: &mut Reports) -> bool {
+        if !self.pcfg.rbf {
+            return self.op_submit(r, true);
+        }
+        let Some(pre) = self.quiesce() else { return false };
+        let tip_n = self.tg.rc.get(&self.n_tip()).number;
+        let cells = self.chain_cells(&pre, tip_n);
+        if cells.len() < 2 {
+            return true;
+        }
+        let shape = if self.flavor == Flavor::SmallCycles { 1 } else { self.xrng.below(3) };
+        r.c11.count("ops.scenario_rbf_equal_fees");
+        let rate = self.min_fee_rate + 100 + self.xrng.below(2_500);
+        let mut olds: Vec<TransactionView> = vec![];
+        let mut new_inputs: Vec<(OutPoint, u64)> = vec![];
+        let Some(r1) = self.simple_tx(&[cells[0].clone()], rate, 0, &[], 0) else { return true };
+        new_inputs.push(cells[0].clone());
+        self.tg.keep.insert(op_key(&cells[0].0));
+        olds.push(r1.clone());
+        if shape != 1 {
+            let Some(r2) = self.simple_tx(&[cells[1].clone()], rate, 0, &[], 0) else { return true };
+            new_inputs.push(cells[1].clone());
+            self.tg.keep.insert(op_key(&cells[1].0));
+            olds.push(r2);
+        }
+        let cap_of = |t: &TransactionView| -> u64 { t.outputs().get(0).unwrap().capacity().into() };
+        match shape {
+            1 => {
+                // child of r1 with the same fee (same shape, same rate)
+                let Some(c) = self.simple_tx(&[(OutPoint::new(r1.hash(), 0), cap_of(&r1))], rate, 0, &[], 0) else { return true };
+                olds.push(c);
+            }
+            2 => {
+                let ins = [(OutPoint::new(olds[0].hash(), 0), cap_of(&olds[0])), (OutPoint::new(olds[1].hash(), 0), cap_of(&olds[1]))];
+                let Some(c) = self.simple_tx(&ins, rate, 0, &[], 0) else { return true };
+                olds.push(c);
+            }
+            _ => {}
+        }
+        for t in &olds {
+            let Some(d) = self.quiesce() else { return false };
+            match self.submit_tx(r, t, &d, "(rbf-equal original)") {
+                None => return false,
+                Some(true) => {}
+                Some(false) => return true,
+            }
+        }
+        let Some(pre2) = self.quiesce() else { return false };
+        let fees: Vec<u64> = olds.iter().filter_map(|t| pre2.entries.iter().find(|e| e.id == t.proposal_short_id()).map(|e| e.fee)).collect();
+        if fees.len() != olds.len() {
+            return true;
+        }
+        let equal = fees.iter().filter(|f| **f == fees[0]).count();
+        if equal >= 2 {
+            r.c11.count("obs.rbf.replaced_set_with_equal_fees");
+        }
+        let sum: u64 = fees.iter().sum();
+        let k = match self.xrng.below(4) {
+            0 => 0,
+            1 => 1,
+            2 => fees[0] / 2,
+            _ => fees[0],
+        };
+        // simple_tx pays size * rate / 1000 + 1 + extra
+        let extra = (sum - 1).saturating_sub(k);
+        let min_rbf = self.min_rbf_rate;
+        let Some(new) = self.simple_tx(&new_inputs, min_rbf, extra, &[], 0) else { return true };
+        match self.submit_tx(r, &new, &pre2, if k == 0 { "(rbf-equal replacement at the threshold)" } else { "(rbf-equal replacement below the threshold)" }) {
+            None => false,
+            Some(acc) => {
+                r.c11.count(if acc { "obs.rbf.equal_fee_replacement_admitted" } else { "obs.rbf.equal_fee_replacement_refused" });
+                true
+            }
+        }
+    }
+
+    /// C11 / C12 (parent enters the pool below its pooled children, then leaves by conflict):
+    /// D (spends c0, creates c) is committed; P (cell dep on c) and S (spends c) are pooled; a
+    /// competing branch forking below D's proposal does not contain D, so the pool takes D back
+    /// with P and S already there; then the new branch commits D', a double spend of c0.
+    /// Every step ends in the ordinary post-operation oracles.
+    fn op_readd_family(&mut self, r: &mut Reports) -> bool {
+        if self.flavor == Flavor::SmallCycles {
+            return self.op_cpfp(r);
+        }
+        let Some(pre) = self.quiesce() else { return false };
+        let tip0 = self.tg.rc.get(&self.n_tip()).number;
+        let (w_close, w_far) = self.tg.rc.window;
+        let cells = self.chain_cells(&pre, tip0);
+        if cells.len() < 3 {
+            return true;
+        }
+        let (c0, g1) = (cells[0].clone(), cells[1].clone());
+        for (op, _) in [&c0, &g1] {
+            self.tg.keep.insert(op_key(op));
+        }
+        let rate = self.min_fee_rate + 300 + self.xrng.below(2_000);
+        let Some(d) = self.simple_tx(&[c0.clone()], rate, 0, &[], 0) else { return true };
+        match self.submit_tx(r, &d, &pre, "(readd: creator)") {
+            None => return false,
+            Some(false) => return true,
+            Some(true) => {}
+        }
+        match self.propose_and_wait(r, std::slice::from_ref(&d)) {
+            Err(()) => return false,
+            Ok(false) => return true,
+            Ok(true) => {}
+        }
+        for _ in 0..(w_far + 2) {
+            if self.committed_on_main(&d) {
+                break;
+            }
+            if !self.op_block_ex(r, 0, &[], false) {
+                return false;
+            }
+        }
+        if !self.committed_on_main(&d) {
+            return true;
+        }
+        let c = (OutPoint::new(d.hash(), 0), d.outputs().get(0).unwrap().capacity().into());
+        self.tg.keep.insert(op_key(&c.0));
+        let dep = CellDep::new_builder().out_point(c.0.clone()).build();
+        let rate = self.min_fee_rate + 300 + self.xrng.below(2_000);
+        let Some(p) = self.simple_tx(&[g1.clone()], rate, 0, &[dep], 3) else { return true };
+        let Some(s) = self.simple_tx(&[c.clone()], rate + 50, 0, &[], 5) else { return true };
+        let order: Vec<(&TransactionView, &str)> = if self.xrng.chance(500, 1000) { vec![(&p, "(readd: dep user)"), (&s, "(readd: spender)")] } else { vec![(&s, "(readd: spender)"), (&p, "(readd: dep user)")] };
+        for (t, label) in order {
+            let Some(dd) = self.quiesce() else { return false };
+            match self.submit_tx(r, t, &dd, label) {
+                None => return false,
+                Some(false) => return true,
+                Some(true) => {}
+            }
+        }
+        // competing branch from below every block made since `tip0` (D's proposal included)
+        let tip_n = self.tg.rc.get(&self.n_tip()).number;
+        let depth = tip_n - tip0;
+        if depth == 0 || depth > 40 {
+            return true;
+        }
+        r.c12.count("ops.scenario_readd_family");
+        if !self.op_block_ex(r, depth, &[], false) {
+            return false;
+        }
+        let Some(mid) = self.quiesce() else { return false };
+        let has = |dmp: &VerifPoolDump, t: &TransactionView| dmp.entries.iter().any(|e| e.id == t.proposal_short_id());
+        if self.committed_on_main(&d) || !(has(&mid, &d) && has(&mid, &p) && has(&mid, &s)) {
+            r.c12.count("obs.readd_family.family_not_complete_after_reorg");
+            return true;
+        }
+        r.c12.count("obs.readd_family.creator_taken_back_below_dep_user_and_spender");
+        // the new branch commits a double spend of D
+        let Some(d2) = self.simple_tx(&[c0.clone()], rate + 700, 0, &[], 9) else { return true };
+        self.known.insert(d2.proposal_short_id(), d2.clone());
+        if !self.op_block_ex(r, 0, std::slice::from_ref(&d2), false) {
+            return false;
+        }
+        for _ in 0..(w_close + w_far + 2) {
+            if self.committed_on_main(&d2) {
+                r.c12.count("obs.readd_family.double_spend_of_creator_committed");
+                break;
+            }
+            if !self.op_block_ex(r, 0, &[], false) {
+                return false;
+            }
+        }
+        true
     }
 
     /// C11: submissions until the pool's size limit evicts (or refuses) something; only in
@@ -2257,27 +2459,29 @@ fn transitive(by: &HashMap<ProposalShortId, &VerifEntry>, id: &ProposalShortId, 
 }
 
 
-/// Why is the creator of a referenced cell neither on the main chain nor pooled?
-/// `@creator_committed_only_on_abandoned_branch`: the creating transaction was committed in a
-/// block that is no longer on the main chain (and was not re-admitted to the pool).
-fn creator_cause(rc: &RefChain, st: &vnode::model::State, creator: &H, pre: &VerifPoolDump) -> &'static str {
+/// Why is the creator of a referenced cell neither on the main chain nor pooled? Judged from
+/// the harness's own records of THIS tip change only (the caller falls back to the cause recorded
+/// when the same (entry, creator) pair was first reported):
+/// `@creator_committed_only_on_abandoned_branch`: the creating transaction was on the main chain
+/// before this tip change, its block was detached by it, and it was not re-admitted to the pool.
+/// `@creator_dropped_from_pool_while_child_kept`: the creating transaction was pooled before this
+/// tip change, was not committed, and it is (a descendant of) an entry whose proposal id the chain
+/// reported as dropped from the window in this tip change (remove_by_detached_proposal takes the
+/// family out and re-inserts the members one by one, ignoring failures).
+/// `@creator_left_pool_without_its_descendants`: pooled before, gone now, for any other reason
+/// (conflict with a committed transaction, expiry, eviction: all of these remove descendants).
+fn creator_cause(st: &vnode::model::State, creator: &H, pre: &VerifPoolDump, detached_now: &HashSet<H>, dropped_family: &HashSet<ProposalShortId>) -> &'static str {
     if st.tx_info.contains_key(creator) {
         return "@spent_on_main_chain";
     }
-    // `@creator_dropped_from_pool_while_child_kept`: the creating transaction was pooled before
-    // this tip change and is gone now although it was not committed (e.g. its re-insertion in
-    // remove_by_detached_proposal failed, its child was re-inserted regardless)
-    if pre.entries.iter().any(|e| h(&e.tx.hash()) == *creator) {
-        return "@creator_dropped_from_pool_while_child_kept";
+    if let Some(e) = pre.entries.iter().find(|e| h(&e.tx.hash()) == *creator) {
+        if dropped_family.contains(&e.id) {
+            return "@creator_dropped_from_pool_while_child_kept";
+        }
+        return "@creator_left_pool_without_its_descendants";
     }
-    let main: HashSet<H> = st.chain.iter().cloned().collect();
-    for (x, rec) in rc.blocks.iter() {
-        if main.contains(x) {
-            continue;
-        }
-        if rec.block.transactions().iter().any(|t| h(&t.hash()) == *creator) {
-            return "@creator_committed_only_on_abandoned_branch";
-        }
+    if detached_now.contains(creator) {
+        return "@creator_committed_only_on_abandoned_branch";
     }
     ""
 }
